@@ -13,7 +13,7 @@ MUST_SUCCEED = {"sp-shuffle", "permutant", "swapRes", "swapRandChargeRes", "full
 RULE = ("hyp: sequence (N=1..40, all composition classes incl. very short) x 'delta-max cached on the parent or not' x a chain of 1-8 moves from "
         "{SequenceParameters.get_shuffled_sequence(frozen as set or list), SequencePermutants.get_permutant(), Sequence.swapRes(i,j), "
         "swapRandChargeRes(frozen), full_shuffle(frozen), permute_block_swap(frozen), permute_cluster_charges(frozen)} each applied to the "
-        "previous result, x frozen subset of positions (empty, few, most, all) (as a set or list of Python ints or of numpy integers) x 'apply the next move to the same object again or to the result' x random tape seed (every internal PRNG is owned by the "
+        "previous result, x frozen subset of positions (empty, few, most, all; one move in six also names 1-3 positions past the end of the sequence, as an overshooting freeze range does - they constrain nothing and the move must still succeed) (as a set or list of Python ints or of numpy integers) x 'apply the next move to the same object again or to the result' x random tape seed (every internal PRNG is owned by the "
         "harness; draw budget 20000 per case). enum: swapRes(i,j) for all i,j on every pattern with N<=4 (quick) / N<=5 (thorough), delta-max "
         "cached or not. Oracle per move: child residues are a rearrangement of the parent's; every frozen position holds its original residue; "
         "child.len == len(child.seq); child.chargePattern equals the pattern recomputed from child.seq; a carried-over dmax != -1 equals the "
@@ -83,12 +83,15 @@ def check(ctx, case):
             as_list = bool(mv[3]) if len(mv) > 3 else False
             as_np = bool(mv[4]) if len(mv) > 4 else False
             stay = bool(mv[5]) if len(mv) > 5 else False
+            beyond = [len(seq) + int(k) for k in mv[6]] if len(mv) > 6 else []    # positions past the end (a freeze range that overshoots)
             if name in ("permutant", "swapRes"):
-                frozen = []           # these two take no frozen argument
+                frozen, beyond = [], []           # these two take no frozen argument
             before = dict(seq=cur.seq, pat=pat_of(cur), dmax=cur.dmax, phos=list(cur.phosphosites), len=cur.len)
             what = "move %d %s(frozen=%s%s) on %s" % (mi, name, sorted(set(frozen)), "" if name != "swapRes" else ", i,j=%s" % extra, cur.seq)
             try:
-                child = do_move(cur, name, frozen, extra, as_list, as_np)
+                child = do_move(cur, name, frozen + beyond, extra, as_list, as_np)
+                if beyond:
+                    ctx.cls("frozen-beyond-end")
             except tape.Budget:
                 ctx.cls("budget:" + name)
                 raise Inconclusive()
@@ -166,6 +169,9 @@ def hyp_case(draw, max_len):
             ij[1] = ij[0]                     # the same position twice
         ij.append(draw(st.sampled_from([0, 0, 1, 2, 3])))
         moves.append([name, frozen, ij, draw(st.booleans()), draw(st.integers(0, 3)) == 0, draw(st.integers(0, 2)) == 0])
+        if draw(st.integers(0, 5)) == 0:
+            # a freeze range that overshoots the sequence (the sampler's freeze-file parser does not clip): positions N, N+1, ... constrain nothing
+            moves[-1].append(draw(st.lists(st.integers(0, 60), min_size=1, max_size=3, unique=True)))
     return {"seq": seq, "cache": draw(st.booleans()), "moves": moves, "tape": draw(st.integers(0, 2 ** 32 - 1))}
 
 
